@@ -263,6 +263,53 @@ def write_replay(pid, kind, payload):
     return os.path.relpath(path, VERIF)
 
 
+# ---------------------------------------------------------------------------------------------- shrinking
+
+def shrink_case(pid, ent, seed, tier, budget_s=45.0):
+    """delta-debug the op lines of a failing case: the smallest sub-sequence (first line kept: it starts the case) on which the
+    real code still produces an oracle failure / crash with the same key.  Returns (ops, info)."""
+    binp, spec, key, ops = ent.get('_bin'), ent.get('_spec'), ent['key'], list(ent.get('case') or [])
+    info = {'original_ops': len(ops), 'runs': 0}
+    if not binp or not spec or len(ops) < 2:
+        return ops, dict(info, reproduced=None)
+    outdir = os.path.join(BUILD, pid, 'shrink')
+    tmp = os.path.join(BUILD, pid, 'shrink_ops.txt')
+    t_end = time.time() + budget_s
+
+    def bad(cand):
+        info['runs'] += 1
+        open(tmp, 'w').write('\n'.join(cand) + '\n')
+        rc, hout = run_harness(binp, outdir, seed, tier, tmp, timeout=60, asan_extra=spec.get('asan_options', ''))
+        if ':crash:' in key:
+            fn = re.search(r'#\d+ 0x[0-9a-f]+ in ([\w:~<>]+)[^\n]*?/src/', hout)
+            return rc != 0 and key == '%s:crash:%s' % (pid, fn.group(1) if fn else 'unknown')
+        for l in read_lines(os.path.join(outdir, 'oracle.txt')):
+            parts = l.split(' ', 3)
+            if len(parts) >= 3 and parts[0] == 'FAIL' and parts[1] == key:
+                return True
+        return False
+
+    if not bad(ops):
+        return ops, dict(info, reproduced=False)
+    head, rest = ops[:1], ops[1:]
+    n = 2
+    while len(rest) >= 2 and time.time() < t_end:
+        chunk = max(1, len(rest) // n)
+        reduced = False
+        for i in range(0, len(rest), chunk):
+            cand = rest[:i] + rest[i + chunk:]
+            if time.time() >= t_end:
+                break
+            if cand != rest and bad(head + cand):
+                rest, n, reduced = cand, max(n - 1, 2), True
+                break
+        if not reduced:
+            if chunk == 1:
+                break
+            n = min(len(rest), n * 2)
+    return head + rest, dict(info, reproduced=True, shrunk_ops=len(head + rest), budget_exhausted=time.time() >= t_end)
+
+
 # ------------------------------------------------------------------------------------------------- main
 
 def one_pass(pid, spec, variant, binp, seed, tier, findings, res, replay=None):
@@ -283,7 +330,7 @@ def one_pass(pid, spec, variant, binp, seed, tier, findings, res, replay=None):
         key = '%s:crash:%s' % (pid, fn.group(1) if fn else 'unknown')
         res['crash'] = what
         ent = {'key': key, 'line': len(ops), 'text': what, 'case': case_of(ops, len(ops) - 1, cs) if ops else [],
-               'log_tail': hout[-3000:], 'variant': variant}
+               'log_tail': hout[-3000:], 'variant': variant, '_bin': binp, '_spec': spec}
         if key in findings and findings[key].get('status') == 'open':
             res['known'].setdefault(key, ent)
         else:
@@ -300,7 +347,7 @@ def one_pass(pid, spec, variant, binp, seed, tier, findings, res, replay=None):
             res['counters']['oracle_failures_of_other_properties'] = res['counters'].get('oracle_failures_of_other_properties', 0) + 1
             continue
         ent = {'key': key, 'line': ln, 'text': parts[3] if len(parts) > 3 else '',
-               'case': case_of(ops, ln - 1, cs) if 0 < ln <= len(ops) else [], 'variant': variant}
+               'case': case_of(ops, ln - 1, cs) if 0 < ln <= len(ops) else [], 'variant': variant, '_bin': binp, '_spec': spec}
         if key in findings and findings[key].get('status') == 'open':
             res['known'].setdefault(key, ent)
         else:
@@ -378,10 +425,16 @@ def main():
         open(tmp, 'w').write('\n'.join(rp.get('ops', [])) + '\n')
         ok, out, _ = lake_build(['n2kdrv'], [spec['engine']], pid)
         variant = rp.get('variant') or (spec.get('variants', [''])[0])
-        binp, err = build_harness(pid, spec, variant)
+        rspec, rvar = spec, variant
+        if variant.startswith('x_'):   # failure found by one of the additional harnesses of this property
+            for ex in spec.get('extra', []):
+                for v in ex.get('variants', ['']):
+                    if variant == 'x_' + ex['engine'] + ('_' + v if v else ''):
+                        rspec, rvar = dict(spec, **ex), v
+        binp, err = build_harness(pid, rspec, rvar)
         if not binp:
             print(err); return 2
-        mm, nf = one_pass(pid, spec, variant, binp, seed, tier, findings, res, replay=tmp)
+        mm, nf = one_pass(pid, rspec, variant, binp, seed, tier, findings, res, replay=tmp)
         outdir = os.path.join(BUILD, pid, 'run_%s' % (variant or 'd'))
         for a, b, c in zip(read_lines(outdir + '/ops.txt'), read_lines(outdir + '/impl.out'),
                            read_lines(outdir + '/model.out') or [''] * 10 ** 6):
@@ -492,8 +545,10 @@ def main():
         for f in fails:
             by_key.setdefault(f['key'], f)
         for key, f in sorted(by_key.items()):
+            small, sinfo = (f['case'], {'skipped': 'more than 3 distinct failures'}) if violations >= 3 else shrink_case(pid, f, seed, tier)
             rp = write_replay(pid, 'oracle', {'key': key, 'seed': seed, 'tier': tier, 'variant': f.get('variant', ''),
-                                              'ops': f['case'], 'observed': f['text'], 'log_tail': f.get('log_tail', ''),
+                                              'ops': small, 'ops_before_shrinking': f['case'] if small != f['case'] else None,
+                                              'shrink': sinfo, 'observed': f['text'], 'log_tail': f.get('log_tail', ''),
                                               'broken_obligations': problems, 'correspondence': mismatches[:1]})
             log('VIOLATION property=%s replay=%s' % (pid, rp))
             violations += 1
